@@ -307,5 +307,13 @@ def programs(tier):
             m1 = dict(m, rows=m["rows"][:1], cases=[dict(c, res=dict(c["res"])) for c in m["cases"]])
             prog, exp, st = matrix_program(m1, i, "let")
             out.append({"prog": prog, "family": "c06:let", "ident": f"c06:let:{m['ty']}:#{i}", "matrix": m1, "matchsem_out": None, "matchsem_status": None})
+    # matching the same variable again inside one of its arms (the arm narrows nothing in the source; in the emitted Go the
+    # variable is rebound to the variant's struct by the outer type switch)
+    p = Program("c06_rematch")
+    p.enum("E2", [("P", []), ("Q", [BOOL])])
+    inner = Match(Var("v"), [(PCtor("P"), Str("inner-P")), (PCtor("Q", PVar("c")), Bin("+", Str("inner-Q:"), Call("bool_to_string", Var("c"))))])
+    p.fn("f", [("v", E2)], STRING, Match(Var("v"), [(PCtor("P"), Str("outer-P")), (PCtor("Q", PVar("b")), Bin("+", Bin("+", Call("bool_to_string", Var("b")), Str("/")), inner))]))
+    p.fn("main", [], UNIT, Block([println(Call("f", Ctor(E2, "P"))), println(Call("f", Ctor(E2, "Q", Bool(True))))], Unit))
+    out.append({"prog": p, "family": "c06:rematch", "ident": "c06:rematch-same-variable", "matrix": {"rows": [], "cases": []}, "matchsem_out": None, "matchsem_status": None})
     _cache[tier] = out
     return out
